@@ -1120,3 +1120,13 @@ mod tests {
     const _: () = is_partial_ord::<Arc<f64>>();
     const _: () = is_ord::<Arc<u64>>();
 }
+
+// Verification hook (guard: `--cfg triomphe_verif`). Lets an external harness crate read and
+// preset the reference count word of a live allocation without depending on the private layout.
+#[cfg(triomphe_verif)]
+impl<T: ?Sized> Arc<T> {
+    #[doc(hidden)]
+    pub fn __verif_count_word(this: &Self) -> &atomic::AtomicUsize {
+        &this.inner().count
+    }
+}
